@@ -112,6 +112,10 @@ type Runner struct {
 	// armed in-pass injection: before the injN-th pool write of the next pass, act on that very key
 	injN, injKind int
 	injCount      int
+	injPick       int
+	// nested > 0 while a pass of another controller runs inside a pass (InjectOtherControllerPass)
+	nested    int
+	nestedErr error
 	// armed owner edit: before call number ownerInjN of the next pass the user toggles the owner's pause state
 	ownerInjN int
 	// armed in-pass cache sync: before call number syncInjN of the next pass the lagging reader catches up
@@ -669,9 +673,11 @@ func (r *Runner) Reconcile(ctrlName string, key kubesim.Key) (*PassView, error) 
 		r.pullsBefore[k] = v
 	}
 	p := r.W.RunPass(ctrlName, engine.Req(key.Namespace, key.Name))
-	r.faultKind = kubesim.FaultNone
-	r.injN, r.injCount, r.ownerInjN, r.syncInjN = 0, 0, 0, 0
-	r.touchInjN, r.touchCount = 0, 0
+	if r.nested == 0 {
+		r.faultKind = kubesim.FaultNone
+		r.injN, r.injCount, r.ownerInjN, r.syncInjN = 0, 0, 0, 0
+		r.touchInjN, r.touchCount = 0, 0
+	}
 	if p.Panic != nil {
 		return nil, Violf("C19", "panic:"+panicKey(p.PanicStack), "controller %s panicked: %v\n%s", ctrlName, p.Panic, trunc(p.PanicStack, 1800))
 	}
@@ -688,6 +694,11 @@ func (r *Runner) Reconcile(ctrlName string, key kubesim.Key) (*PassView, error) 
 		r.Views = append(r.Views, pv)
 	}
 	r.Log = append(r.Log, fmt.Sprintf("pass %d %s %s/%s calls=%d err=%q", p.ID, ctrlName, key.Namespace, key.Name, len(pv.Calls), trunc(p.Err, 80)))
+	if r.nested == 0 && r.nestedErr != nil {
+		err := r.nestedErr
+		r.nestedErr = nil
+		return pv, err
+	}
 	for _, m := range r.Monitors {
 		if err := m.AfterPass(r, pv); err != nil {
 			return pv, err
@@ -794,6 +805,7 @@ func (r *Runner) Exec(idx int, st Step) error {
 	case "inject":
 		r.injN = 1 + mod(st.I, 6)
 		r.injKind = st.J
+		r.injPick = st.K
 		r.injCount = 0
 	case "quiesce":
 		_, ok, err := r.Quiesce()
@@ -1148,9 +1160,79 @@ func ReplayScenario(data []byte, mk func(sc *Scenario) *Runner) (any, error) {
 // InjectKinds names the third-party actions that can be injected between PKO's read and its write.
 var InjectKinds = []string{"reown-foreign", "recreate", "edit", "add-owner", "delete", "strip-owners"}
 
+// InjectOtherControllerPass is not a third-party action: between the running pass's read of an object and its write, a
+// *different* PKO controller (each has its own single worker) reconciles another owner that lists the same object.
+const InjectOtherControllerPass = 100
+
+// specLists reports whether the JSON tree contains an object manifest of the key's kind and name.
+func specLists(v any, k kubesim.Key) bool {
+	switch x := v.(type) {
+	case map[string]any:
+		if kind, _ := x["kind"].(string); kind == k.Kind {
+			if md, _ := x["metadata"].(map[string]any); md != nil {
+				if n, _ := md["name"].(string); n == k.Name {
+					return true
+				}
+			}
+		}
+		for _, e := range x {
+			if specLists(e, k) {
+				return true
+			}
+		}
+	case []any:
+		for _, e := range x {
+			if specLists(e, k) {
+				return true
+			}
+		}
+	}
+	return false
+}
+
+// nestedPassOn runs one reconcile pass of another controller for an owner that lists k, inside the running pass.
+func (r *Runner) nestedPassOn(k kubesim.Key) {
+	if r.nested > 0 || len(r.W.Passes) == 0 {
+		return
+	}
+	cur := r.W.Passes[len(r.W.Passes)-1]
+	type cand struct {
+		ctrl string
+		key  kubesim.Key
+	}
+	var cands []cand
+	for _, cn := range []string{engine.CtrlObjectSet, engine.CtrlClusterObjectSet, engine.CtrlObjectSetPhase, engine.CtrlClusterObjectSetPhase, engine.CtrlRemotePhase} {
+		if cn == cur.Controller {
+			continue // one worker per controller: it cannot run two passes at once
+		}
+		for _, ok := range r.ExistingOf(cn) {
+			o := r.W.Store.PeekNoCopy(ok)
+			if o == nil || !specLists(o["spec"], k) {
+				continue
+			}
+			cands = append(cands, cand{cn, ok})
+		}
+	}
+	if len(cands) == 0 {
+		return
+	}
+	c := cands[mod(r.injPick, len(cands))]
+	r.Labels["other-controller-pass-inside-pass"] = true
+	r.nested++
+	_, err := r.Reconcile(c.ctrl, c.key)
+	r.nested--
+	if err != nil && r.nestedErr == nil {
+		r.nestedErr = err
+	}
+}
+
 // injectOn performs a third-party action on key k (called from inside a pass, right before PKO's write on k).
 func (r *Runner) injectOn(k kubesim.Key, kind int) {
 	r.Labels["injected"] = true
+	if kind == InjectOtherControllerPass {
+		r.nestedPassOn(k)
+		return
+	}
 	r.W.ActAs("thirdparty", func(c client.Client) {
 		o := r.W.Store.Peek(k)
 		if o == nil {
